@@ -20,6 +20,119 @@ def cursor_names(w):
     return names
 
 
+class _Top(object):
+    """Definite-assignment set of a branch that does not fall through (return / continue / break / raise)."""
+
+
+def _reads(expr):
+    return [n for n in ast.walk(expr) if isinstance(n, ast.Name) and isinstance(n.ctx, ast.Load)]
+
+
+def _targets(t):
+    return {n.id for n in ast.walk(t) if isinstance(n, ast.Name) and isinstance(n.ctx, ast.Store)}
+
+
+def maybe_unassigned_reads(stmts, defs, out):
+    """Structured must-definition walk of one loop iteration: records (name, line) for every read of a
+    name that is not definitely assigned earlier in the same iteration.  Returns the definite set after
+    the statements, or _Top when control does not fall through."""
+    defs = set(defs)
+    for st in stmts:
+        if isinstance(st, (ast.Return, ast.Raise)):
+            if getattr(st, 'value', None) is not None:
+                out += [(n.id, n.lineno) for n in _reads(st.value) if n.id not in defs]
+            if isinstance(st, ast.Raise) and st.exc is not None:
+                out += [(n.id, n.lineno) for n in _reads(st.exc) if n.id not in defs]
+            return _Top
+        if isinstance(st, (ast.Continue, ast.Break)):
+            return _Top
+        if isinstance(st, ast.Assign):
+            out += [(n.id, n.lineno) for n in _reads(st.value) if n.id not in defs]
+            for t in st.targets:
+                if not isinstance(t, ast.Name):
+                    out += [(n.id, n.lineno) for n in _reads(t) if n.id not in defs]
+                defs |= _targets(t)
+        elif isinstance(st, ast.AugAssign):
+            out += [(n.id, n.lineno) for n in _reads(st.value) if n.id not in defs]
+            if isinstance(st.target, ast.Name):
+                if st.target.id not in defs:
+                    out.append((st.target.id, st.lineno))
+            else:
+                out += [(n.id, n.lineno) for n in _reads(st.target) if n.id not in defs]
+        elif isinstance(st, ast.If):
+            out += [(n.id, n.lineno) for n in _reads(st.test) if n.id not in defs]
+            a = maybe_unassigned_reads(st.body, defs, out)
+            b = maybe_unassigned_reads(st.orelse, defs, out)
+            if a is _Top and b is _Top:
+                return _Top
+            defs = b if a is _Top else (a if b is _Top else (a & b))
+        elif isinstance(st, ast.For):
+            out += [(n.id, n.lineno) for n in _reads(st.iter) if n.id not in defs]
+            maybe_unassigned_reads(st.body, defs | _targets(st.target), out)
+        elif isinstance(st, ast.While):
+            out += [(n.id, n.lineno) for n in _reads(st.test) if n.id not in defs]
+            maybe_unassigned_reads(st.body, defs, out)
+        elif isinstance(st, ast.Try):
+            a = maybe_unassigned_reads(st.body, defs, out)
+            outs = [a]
+            for h in st.handlers:
+                hd = set(defs) | ({h.name} if h.name else set())
+                outs.append(maybe_unassigned_reads(h.body, hd, out))
+            live = [x for x in outs if x is not _Top]
+            if not live:
+                return _Top
+            d = live[0]
+            for x in live[1:]:
+                d = d & x
+            defs = set(d)
+            if st.finalbody:
+                r = maybe_unassigned_reads(st.finalbody, defs, out)
+                if r is _Top:
+                    return _Top
+                defs = r
+        elif isinstance(st, ast.With):
+            for it in st.items:
+                out += [(n.id, n.lineno) for n in _reads(it.context_expr) if n.id not in defs]
+                if it.optional_vars is not None:
+                    defs |= _targets(it.optional_vars)
+            r = maybe_unassigned_reads(st.body, defs, out)
+            if r is _Top:
+                return _Top
+            defs = r
+        elif isinstance(st, ast.Expr):
+            out += [(n.id, n.lineno) for n in _reads(st.value) if n.id not in defs]
+        elif isinstance(st, (ast.Delete, ast.Pass, ast.Assert, ast.Global, ast.Import, ast.ImportFrom)):
+            pass
+        else:
+            for n in ast.walk(st):
+                if isinstance(n, ast.Name) and isinstance(n.ctx, ast.Load) and n.id not in defs:
+                    out.append((n.id, n.lineno))
+    return defs
+
+
+def _enclosing_ifs(loop, node):
+    """If statements of the loop body that enclose `node`."""
+    out = []
+
+    def walk(stmts, chain):
+        for st in stmts:
+            if st is node or any(x is node for x in ast.walk(st)):
+                if st is node:
+                    out.extend(chain)
+                    return True
+                nxt = chain + [st] if isinstance(st, ast.If) else chain
+                for fld in ('body', 'orelse', 'finalbody'):
+                    blk = getattr(st, fld, None)
+                    if isinstance(blk, list) and walk(blk, nxt):
+                        return True
+                for h in getattr(st, 'handlers', []) or []:
+                    if walk(h.body, nxt):
+                        return True
+        return False
+    walk(loop.body, [])
+    return out
+
+
 def _lower_bound(e):
     """Constant lower bound of a non-negative offset expression (names are lengths >= 0)."""
     if isinstance(e, ast.Constant) and isinstance(e.value, int):
@@ -302,6 +415,27 @@ def check(prog, rep, tier):
                               % (k, src_of(t), minadv),
                         expected='continue while a whole element remains', key=lk)
                 continue
+        # path-sensitive version: a name stored somewhere in the loop body that can be read on a path of one
+        # iteration before it is assigned in that iteration carries a value over from the previous element
+        reads = []
+        maybe_unassigned_reads(w.body, set(), reads)
+        stored_plain = {nm for nm, sp in stores.items() if aug_only.get(nm, 0) != len(sp)}
+        for nm, ln in reads:
+            if nm in stored_plain and nm not in cur and nm not in comp_vars and nm not in carried and nm not in acc:
+                # x = x + ... / x = x[...]: self-referential rebuild of an accumulator or cursor alias
+                selfref = all(any(isinstance(y, ast.Name) and y.id == nm for y in ast.walk(a_.value))
+                              for a_ in ast.walk(body) if isinstance(a_, ast.Assign)
+                              and any(isinstance(t_, ast.Name) and t_.id == nm for t_ in a_.targets))
+                # assigned only under loop-invariant guards (a parameter, a class constant): every iteration takes
+                # the same branches, so the read can never see a value of an earlier iteration
+                invariant = True
+                for a_ in ast.walk(body):
+                    if isinstance(a_, ast.Assign) and any(isinstance(t_, ast.Name) and t_.id == nm for t_ in a_.targets):
+                        for anc in _enclosing_ifs(w, a_):
+                            if any(isinstance(y, ast.Name) and y.id in stores for y in ast.walk(anc.test)):
+                                invariant = False
+                if not selfref and not invariant:
+                    carried.append(nm)
         # loop variables of inner for-loops are stores that precede their loads
         if carried:
             rep.bad('R15.c', lk, file=f.file, line=w.lineno, func=f.qualname,
@@ -325,6 +459,13 @@ def check(prog, rep, tier):
             branches.append((code, n, w, r))
     shared_ok = {'decode_value', 'attributes', 'attr_value', 'asn4', 'afi_add_path', 'bgp_cons', 'type_code'}
     probs = []
+    # session parameters are shared read-only: a branch that rebinds one changes how every later attribute of the
+    # same UPDATE is decoded
+    for ci, ni, wi, ri in branches:
+        for name in sorted(wi & set(pa.params)):
+            probs.append((ni, 'the branch for type %s rebinds the parameter %s: attributes that follow it in the '
+                              'same UPDATE are decoded with the new value, attributes before it with the old one'
+                          % (ci, name)))
     for ci, ni, wi, ri in branches:
         for cj, nj, wj, rj in branches:
             if ci == cj:
